@@ -295,11 +295,10 @@ def follow (ps : List (Option Policy)) (init : Headers) :
   | st, [] => (st.via.toList, .final)
   | st, t :: ts =>
     let strip := goStrips st.stripped st.via.first.host t
-    let (d, hdr) := compose ps t (goCopyHeaders init strip) st.via
-    match d with
-    | .allow => follow ps init { via := st.via.push ⟨t, hdr⟩, stripped := strip } ts
-    | .deny => (st.via.toList, .refused st.via.length)
-    | .useLast => (st.via.toList, .lastResponse st.via.length)
+    match compose ps t (goCopyHeaders init strip) st.via with
+    | (.allow, hdr) => follow ps init { via := st.via.push ⟨t, hdr⟩, stripped := strip } ts
+    | (.deny, _) => (st.via.toList, .refused st.via.length)
+    | (.useLast, _) => (st.via.toList, .lastResponse st.via.length)
 
 def runChain (ps : List (Option Policy)) (h0 : Hop) (targets : List Bytes) : List Hop × Outcome :=
   follow ps h0.hdr { via := { first := h0 } } targets
